@@ -1003,8 +1003,80 @@ func unknownNeverWrapsSCEV(p *core.Program) (bool, string) {
 	return n > 0, "call-graph artefact: SCEVUnknown.Value is only ever assigned SSA values, so Name()→String()→Value.Name() cannot come back"
 }
 
+// c17NodeSize: the tree-size cap of symbolic expressions works on a size recorded in every composite node; the
+// recorded size counts BOTH operands the node is built from (and the cap test sums both recursion results) — a
+// size that counts one operand twice lets chains that share the other operand grow as 2^depth under the cap.
+func c17NodeSize(r *core.Run) {
+	p := r.P
+	n := 0
+	counterArgs := func(v ssa.Value) []ssa.Value {
+		var out []ssa.Value
+		var walk func(v ssa.Value, d int)
+		walk = func(v ssa.Value, d int) {
+			if d > 6 {
+				return
+			}
+			switch x := v.(type) {
+			case *ssa.BinOp:
+				if x.Op == token.ADD {
+					walk(x.X, d+1)
+					walk(x.Y, d+1)
+				}
+			case *ssa.Call:
+				g := core.StaticCallee(&x.Call)
+				if g != nil && p.IsProdFunc(g) && len(g.Params) == 1 && strings.HasSuffix(g.Params[0].Type().String(), "loop.SCEV") {
+					out = append(out, x.Call.Args[0])
+				}
+			}
+		}
+		walk(v, 0)
+		return out
+	}
+	for _, fn := range p.FuncsIn("pkg/analysis/loop") {
+		core.InstrsOf(fn, func(in ssa.Instruction) {
+			al, ok := in.(*ssa.Alloc)
+			if !ok || !strings.HasSuffix(core.Deref(al.Type()).String(), "loop.SCEVGenericExpr") {
+				return
+			}
+			st, _ := core.Deref(al.Type()).Underlying().(*types.Struct)
+			if st == nil {
+				return
+			}
+			sizeField := ""
+			for i := 0; i < st.NumFields(); i++ {
+				if isIntegerType(st.Field(i).Type()) && !strings.Contains(st.Field(i).Type().String(), "token") {
+					sizeField = st.Field(i).Name()
+				}
+			}
+			sz, has := core.StructLitField(al, sizeField)
+			if sizeField == "" || !has || sz == nil {
+				return
+			}
+			xv, okX := core.StructLitField(al, "X")
+			yv, okY := core.StructLitField(al, "Y")
+			if !okX || !okY {
+				return
+			}
+			n++
+			args := counterArgs(sz)
+			hasX, hasY := false, false
+			for _, a := range args {
+				if core.Unwrap(a) == core.Unwrap(xv) {
+					hasX = true
+				}
+				if core.Unwrap(a) == core.Unwrap(yv) {
+					hasY = true
+				}
+			}
+			r.Check(hasX && hasY, "C17.REC", core.FuncName(fn)+"#node-size-counts-both-operands", al.Pos(), "the recorded size of a composite node adds the sizes of both operands", "the recorded size of a composite expression node does not add the sizes of both of its operands ("+core.Canon(sz)+"): the tree-size cap undercounts, and chains that reuse the uncounted operand grow exponentially below the cap")
+		})
+	}
+	r.Floor("C17.REC", "composite expression nodes with a recorded size", n, 1)
+}
+
 func c17Caps(r *core.Run) {
 	p := r.P
+	c17NodeSize(r)
 	// candidate buckets
 	n := 0
 	for _, fn := range p.FuncsIn("pkg/diff") {
@@ -1026,7 +1098,13 @@ func c17Caps(r *core.Run) {
 				if !ok || neg || op != token.LSS {
 					return false, false
 				}
-				if _, isLen := isBuiltinCall(x, "len"); !isLen {
+				ln, isLen := isBuiltinCall(x, "len")
+				if !isLen {
+					return false, false
+				}
+				// the length that is capped is the bucket's (a lookup in this map under this key), not the map's
+				lk, isLk := core.Unwrap(ln.Call.Args[0]).(*ssa.Lookup)
+				if !isLk || core.Canon(lk.X) != core.Canon(mu.Map) || core.Canon(lk.Index) != core.Canon(mu.Key) {
 					return false, false
 				}
 				_, isC := core.ConstInt(y)
@@ -1245,6 +1323,57 @@ func c17Caps(r *core.Run) {
 				return isAdd && b.Op == token.ADD, true
 			})
 			r.Check(ok1 && n1 > 0, "C17.CAPS", core.FuncName(fn)+"#total-string-bytes-cap", st.Pos(), "a literal is kept only while the per-function byte budget holds", "string literals are collected without the per-function byte cap ("+core.FmtPath(path)+")")
+			// ... and the budget is spent: the running total that the test reads grows by the literal's length on the
+			// path that keeps the literal (a total that never grows makes the cap a per-literal test)
+			if ok1 && n1 > 0 {
+				spent := false
+				var acc ssa.Value
+				for _, b := range fn.Blocks {
+					if len(b.Instrs) == 0 {
+						continue
+					}
+					if ifi, isIf := b.Instrs[len(b.Instrs)-1].(*ssa.If); isIf {
+						if op, x, _, neg, okC := core.Compare(ifi.Cond); okC && !neg && op == token.LEQ {
+							if add, isAdd := x.(*ssa.BinOp); isAdd && add.Op == token.ADD && (b == st.Block() || b.Dominates(st.Block())) {
+								acc = add.X
+							}
+						}
+					}
+				}
+				if accPhi, isPhi := acc.(*ssa.Phi); isPhi {
+					// an increment acc + len(...) in the keeping block that flows back into the accumulator
+					var inc *ssa.BinOp
+					for _, in2 := range st.Block().Instrs {
+						if b2, isB := in2.(*ssa.BinOp); isB && b2.Op == token.ADD && b2.X == acc {
+							if _, isLen := isBuiltinCall(b2.Y, "len"); isLen {
+								inc = b2
+							}
+						}
+					}
+					if inc != nil {
+						seenP := map[ssa.Value]bool{}
+						var flows func(v ssa.Value, d int) bool
+						flows = func(v ssa.Value, d int) bool {
+							if v == ssa.Value(inc) {
+								return true
+							}
+							ph, ok := v.(*ssa.Phi)
+							if !ok || seenP[v] || d > 8 {
+								return false
+							}
+							seenP[v] = true
+							for _, e := range ph.Edges {
+								if flows(e, d+1) {
+									return true
+								}
+							}
+							return false
+						}
+						spent = flows(accPhi, 0)
+					}
+				}
+				r.Check(spent, "C17.CAPS", core.FuncName(fn)+"#total-string-bytes-spent", st.Pos(), "the running byte total grows by the length of every literal that is kept", "the running byte total that the per-function cap reads is not increased when a literal is kept: the cap never engages and every large literal of a function is kept and processed")
+			}
 			// per-string truncation: a slice val[:max] under len(val) > max exists
 			trunc := false
 			core.InstrsOf(fn, func(in2 ssa.Instruction) {
